@@ -113,11 +113,14 @@ def obsOf (ws : List String) (obs : String) : List Obs :=
   let ows := words obs
   let vs := (verdictsOf obs).map (fun (b, v) => Obs.verdict b v)
   match ws with
-  | ["batch", n, _, _, _, _] => .submitted (nat! ((field ows "b").getD "0")) (nat! n) :: vs
+  | ["batch", n, _, _, _, hard] =>
+    let b := nat! ((field ows "b").getD "0")
+    .submitted b (nat! n) :: (if hard == "now" then [Obs.hardPassed b] else []) ++ vs
+  | ["elapse", b] => [.hardPassed (nat! b)]
   | ["accept", p] =>
     [.dispatched (nat! p) (nat! ((field ows "j").getD "0")) (parseReq ((field ows "r").getD "0.0"))]
   | ["result", p, e] =>
-    .result (nat! p) (nat! ((field ows "j").getD "0")) ((parseErr e).getD .other) :: vs
+    .result (nat! p) (nat! ((field ows "j").getD "0")) ((parseErr e).getD .other) :: vs ++ [.resultDone]
   | ["exit", p] => [.exited (nat! p)]
   | ["order"] => [.order (parseOrder obs)]
   | ["quit"] => .quit :: vs
@@ -140,9 +143,10 @@ def realObs (ws : List String) (obs : String) : Option RObs :=
   | "rbatch" :: i :: _ =>
     let v := (field ows "v").getD "HANG"
     let (fin, n) := parseFrac ((field ows "fin").getD "0/0")
-    some (.batch (nat! i) (if v == "HANG" then none else some (parseVerdict v)) fin n)
+    let kind := (field ws "kind").getD "later"
+    some (.batch (nat! i) kind (if v == "HANG" then none else some (parseVerdict v)) fin n)
   | ["rstop"] => some (.stop (obs == "ok"))
-  | ["rpeer"] => some (.stop false)
+  | ["rpeer"] => some .peerNotTaken
   | ["rfinal"] =>
     let inner := ((obs.replace "n=[" "").replace "]" "")
     some (.final ((words inner).map (fun w => match w.splitOn ":" with
@@ -175,7 +179,10 @@ def runCase : CaseFn := fun c => Id.run do
       out := out.push s!"ORACLE-FAIL C12 case {c.num} line {ln}: shape=panic the dispatcher goroutine panicked while handling: {op} ({obs})"
       continue
     if obs.startsWith "HANG" then
-      out := out.push s!"ORACLE-FAIL C12 case {c.num} line {ln}: shape=hang the dispatcher stopped reacting at: {op}"
+      if (obs.splitOn "while-offered").length > 1 then
+        out := out.push s!"ORACLE-FAIL C12 case {c.num} line {ln}: shape=dispatcher-blocked-offering-job a free worker exited while it was being offered the head job and the dispatcher never reacted again (at: {op})"
+      else
+        out := out.push s!"ORACLE-FAIL C12 case {c.num} line {ln}: shape=hang the dispatcher stopped reacting at: {op}"
       continue
     -- the property oracle, on the implementation's own observations
     for ob in obsOf ws obs do
